@@ -1017,7 +1017,7 @@ func (h *Hub) processMessage(client HandlerClient, data []byte) {
 		return
 	}
 
-	statsMessagesTotal.WithLabelValues(message.Type).Inc()
+	statsMessagesTotal.WithLabelValues(getStatsMessageType(message.Type)).Inc()
 
 	session := client.GetSession()
 	if session == nil {
@@ -1059,6 +1059,19 @@ func (h *Hub) processMessage(client HandlerClient, data []byte) {
 		log.Printf("Ignore hello %+v for already authenticated connection %s", message.Hello, session.PublicId())
 	default:
 		log.Printf("Ignore unknown message %+v from %s", message, session.PublicId())
+	}
+}
+
+// getStatsMessageType returns the label to use for counting messages of the
+// given type. The type is sent by the client, so only known types are used as
+// label (label values must be valid UTF-8 and every new value creates a new
+// time series).
+func getStatsMessageType(messageType string) string {
+	switch messageType {
+	case "hello", "bye", "room", "message", "control", "internal", "transient":
+		return messageType
+	default:
+		return "unknown"
 	}
 }
 
